@@ -385,10 +385,37 @@ fn body(p: &P17) -> Option<(String, String)> {
             verdict = Some(("C17.not_exactly_one".into(), format!("{} of {} racing opens (all keeping their handle) succeeded: {}", held.len(), holders, hist())));
         }
     }
+    // every handle that is still open now (whatever destroy attempts ran meanwhile) is a working
+    // database: a write through it succeeds and is there after close + reopen
+    let mut survivor_keys: Vec<Vec<u8>> = vec![];
+    for (i, db) in held.iter().enumerate() {
+        let key = format!("survivor-{}", i).into_bytes();
+        match db.put(WriteOptions::default(), key.clone(), b"s".to_vec()) {
+            Ok(()) => survivor_keys.push(key),
+            Err(e) => {
+                if verdict.is_none() {
+                    verdict = Some(("C17.owner_disturbed".into(), format!("a put through a handle that was opened successfully and is still open fails: {} ({})", e, hist())));
+                }
+            }
+        }
+    }
     // release everything, then the data of a surviving database must be there
     for db in held.drain(..) {
         alive.fetch_sub(1, Ordering::SeqCst);
         drop(db);
+    }
+    if verdict.is_none() && !survivor_keys.is_empty() {
+        match DB::open(opts(&fs)) {
+            Ok(db) => {
+                for k in survivor_keys.iter() {
+                    if get(&db, k).is_none() {
+                        verdict = Some(("C17.owner_disturbed".into(), format!("a write acknowledged to the last open handle is gone after close + reopen ({})", hist())));
+                        break;
+                    }
+                }
+            }
+            Err(e) => verdict = Some(("C17.owner_disturbed".into(), format!("the database of the last open handle cannot be opened after its close: {} ({})", e, hist()))),
+        }
     }
     // every put acknowledged by any owner is there after everybody closed (unless a destroy ran)
     let destroyed = events.iter().any(|e| e.what == "destroy" && e.ok) || p.actors.contains(&Actor::Destroy);
@@ -678,7 +705,7 @@ pub fn c17(tier: &str) -> ! {
         }
     }
     rep.cov("wall_explore_s", json!(t0.elapsed().as_secs_f64()));
-    rep.cov("oracle", json!("at no moment two successfully opened handles are alive; while the main thread holds the database open every other open (also one with error_if_exists or without create_if_missing) and every destroy_database returns Err and the owner's later put/get succeed and its data is there after close + reopen; among racers that all keep their handle exactly one open succeeds; after everybody closed (attempts that failed included) the database can be opened again; no panic, no hang"));
+    rep.cov("oracle", json!("at no moment two successfully opened handles are alive; while the main thread holds the database open every other open (also one with error_if_exists or without create_if_missing) and every destroy_database returns Err and the owner's later put/get succeed and its data is there after close + reopen; among racers that all keep their handle exactly one open succeeds; after everybody closed (attempts that failed included) the database can be opened again; every handle that is still open at the end (whatever destroy attempts ran meanwhile) accepts a write that is there after close + reopen; no panic, no hang"));
     rep.assume("real TmpFileSystem (flock through fs2) in a fresh temp directory per execution; every FileSystem trait call is a switch point (destroy_database has no lock operation of its own); try_lock_exclusive is non-blocking so the controlled scheduler owns the interleaving");
     rep.assume("all schedules within the stated preemption / deviation bound; threads of one process (flock is per open file description, so handles of one process exclude each other like processes do)");
     rep.finish()
